@@ -313,7 +313,7 @@ pub fn run(ctx: &Ctx) -> i32 {
         ctx,
         sum,
         Finish {
-            rule: "8 families per 8 consecutive case indices: legacy 0x0004 and 0x0011 chunks alone (full component tables, count byte 0 = 256, many packets with skips, overlapping packets, single high entry), new-format ranges (first > 0, >= 256, named entries), new+legacy in both orders, negatives: every generated indexed sprite with one used index removed from its palette (cel pixels / tileset pixels) and indexed sprites without any palette chunk, and the 6-bit table 0..63 at entry position = component; palette observed via palette()/num_colors()/color(i) for i in 0..320 plus extremes; distinct = model + packet hash".into(),
+            rule: "8 families per 8 consecutive case indices: legacy 0x0004 and 0x0011 chunks alone (full component tables, count byte 0 = 256, many packets with skips, overlapping packets, single high entry), new-format ranges (first > 0, >= 256, named entries), a palette split over several new-format chunks (parts of the range in any order, a part restated, later parts in later frames), two legacy chunks without a new-format one (same or later frame), new+legacy in both orders, negatives: every generated indexed sprite with one used index removed from its palette (cel pixels / tileset pixels) and indexed sprites without any palette chunk, and the 6-bit table 0..63 at entry position = component; palette observed via palette()/num_colors()/color(i) for i in 0..320 plus extremes; distinct = model + packet hash".into(),
             coverage_extra: json!({}),
             assumptions: vec!["legacy 'cumulative packet offsets' = running sum of the packets' skip bytes (Aseprite's own reader and the property statement)".into(), "6-bit scaling = bit replication (c<<2)|(c>>4), the even map with 0->0 and 63->255".into()],
             exhaustive: false,
